@@ -6,15 +6,22 @@ package integration_tests
 // first reply bytes that follow it.  Judged by Prop_C04 (E2E clauses).
 
 import (
+	"context"
+	"crypto/tls"
 	"errors"
 	"fmt"
 	"io"
 	"net"
+	"net/http"
 	"sync"
 	"testing"
 	"time"
 
+	"github.com/apernet/quic-go"
+	"github.com/apernet/quic-go/http3"
+
 	"github.com/apernet/hysteria/core/v2/client"
+	"github.com/apernet/hysteria/core/v2/internal/protocol"
 	coreErrs "github.com/apernet/hysteria/core/v2/errors"
 	kit "github.com/apernet/hysteria/core/v2/internal/verifkit"
 	"github.com/apernet/hysteria/core/v2/server"
@@ -208,5 +215,156 @@ func TestVerif_C04E2E(t *testing.T) {
 		}
 		c.Close()
 	}
+	c04RawPeer(t, tr, udpConn.LocalAddr(), ob)
 	t.Log(fmt.Sprintf("events=%d", tr.Count()))
+}
+
+// A peer that is not the stock client: it authenticates over plain HTTP/3 and then writes request frames of its own
+// making - the frame type and every length field in any of the varint widths a peer may choose (the stock client only
+// ever uses the shortest), any padding length, the frame cut into arbitrary writes, payload directly behind it.
+func c04RawPeer(t *testing.T, tr *kit.Trace, srv net.Addr, ob *c04Outbound) {
+	pc, err := net.ListenUDP("udp", &net.UDPAddr{IP: net.IPv4(127, 0, 0, 1), Port: 0})
+	if err != nil {
+		t.Fatal(err)
+	}
+	defer pc.Close()
+	qtr := &quic.Transport{Conn: pc}
+	defer qtr.Close()
+	ctx, cancel := context.WithTimeout(context.Background(), 10*time.Second)
+	defer cancel()
+	qc, err := qtr.DialEarly(ctx, srv, http3.ConfigureTLSConfig(&tls.Config{InsecureSkipVerify: true}), &quic.Config{EnableDatagrams: true})
+	if err != nil {
+		t.Fatalf("raw dial: %v", err)
+	}
+	defer qc.CloseWithError(0x100, "")
+	h3tr := &http3.Transport{}
+	defer h3tr.Close()
+	cc := h3tr.NewClientConn(qc)
+	req, _ := http.NewRequest("POST", "https://hysteria/auth", nil)
+	req.Header.Set(protocol.RequestHeaderAuth, "x")
+	req.Header.Set(protocol.CommonHeaderCCRX, "0")
+	req.Header.Set(protocol.CommonHeaderPadding, "pppppppppppppppp")
+	resp, err := cc.RoundTrip(req.WithContext(ctx))
+	if err != nil || resp.StatusCode != protocol.StatusAuthOK {
+		t.Fatalf("raw auth: %v %v", err, resp)
+	}
+	resp.Body.Close()
+
+	tr.Reset(kit.E{"src": "e2e-raw", "real": true, "lim": []int{2048, 2048, 4096}, "consts": []int{2048, 2048, 4096}})
+	r := kit.Rand(45)
+	salt := 5000
+	attempt := func(addrLen, padLen int, w [3]int, split int) kit.E {
+		salt++
+		addr := c04Addr(addrLen, salt)
+		payload := []byte(fmt.Sprintf("PAYLOAD-%04d-first-bytes", salt))
+		reply := []byte(fmt.Sprintf("REPLY-%04d-first-bytes", salt))
+		ob.mu.Lock()
+		ob.dials, ob.reply, ob.want, ob.errMsg = nil, reply, len(payload), nil
+		ob.mu.Unlock()
+		e := kit.E{"ev": "E2E", "fast": false, "raw": true, "w": w[:], "padLen": padLen, "split": split, "addrLen": addrLen, "msgLen": -1, "called": false, "ncalls": 0, "addrSame": false,
+			"dialOk": false, "payloadSame": false, "replySame": false, "isDialErr": false, "msgSame": false, "errText": "", "retried": false}
+		var frame []byte
+		frame = append(frame, kit.QUICVarintN(protocol.FrameTypeTCPRequest, w[0])...)
+		frame = append(frame, kit.QUICVarintN(uint64(addrLen), w[1])...)
+		frame = append(frame, addr...)
+		frame = append(frame, kit.QUICVarintN(uint64(padLen), w[2])...)
+		frame = append(frame, make([]byte, padLen)...)
+		frame = append(frame, payload...)
+		st, err := qc.OpenStream()
+		if err != nil {
+			e["errText"] = "open: " + err.Error()
+			return e
+		}
+		defer func() { st.CancelRead(0); st.Close() }()
+		st.SetDeadline(time.Now().Add(3 * time.Second))
+		// split: 0 one write; 1 byte by byte through the header fields; >1 at that offset
+		switch {
+		case split == 1:
+			n := w[0] + w[1] + 2
+			if n > len(frame) {
+				n = len(frame)
+			}
+			for i := 0; i < n; i++ {
+				st.Write(frame[i : i+1])
+				time.Sleep(time.Millisecond)
+			}
+			st.Write(frame[n:])
+		case split > 1 && split < len(frame):
+			st.Write(frame[:split])
+			time.Sleep(2 * time.Millisecond)
+			st.Write(frame[split:])
+		default:
+			st.Write(frame)
+		}
+		ok, msg, rerr := protocol.ReadTCPResponse(st)
+		if rerr != nil {
+			e["errText"] = "resp: " + rerr.Error()
+		} else if !ok {
+			e["errText"] = "refused: " + msg
+		} else {
+			rb := make([]byte, len(reply))
+			n, rerr := io.ReadFull(st, rb)
+			e["replySame"] = rerr == nil && string(rb[:n]) == string(reply)
+			e["dialOk"] = true
+		}
+		if len(e["errText"].(string)) > 80 {
+			e["errText"] = e["errText"].(string)[:80]
+		}
+		ob.mu.Lock()
+		dials := ob.dials
+		ob.mu.Unlock()
+		e["ncalls"] = len(dials)
+		if len(dials) >= 1 {
+			e["called"] = true
+			e["addrSame"] = len(dials) == 1 && dials[0].addr == addr
+			select {
+			case got := <-dials[0].got:
+				e["payloadSame"] = string(got) == string(payload)
+			case <-time.After(4 * time.Second):
+			}
+		}
+		return e
+	}
+	one := func(addrLen, padLen int, w [3]int, split int) {
+		e := attempt(addrLen, padLen, w, split)
+		inDom := addrLen >= 1 && addrLen <= 2048 && padLen <= 4096
+		if inDom && !(e["called"].(bool) && e["addrSame"].(bool) && e["dialOk"].(bool) && e["payloadSame"].(bool) && e["replySame"].(bool)) {
+			// deadlines are real time: a second observation on a fresh stream counts
+			e = attempt(addrLen, padLen, w, split)
+			e["retried"] = true
+		}
+		tr.Ev(e)
+	}
+	fit := func(v, w int) bool { return w == 8 || (w == 4 && v < 1<<30) || (w == 2 && v < 1<<14) || (w == 1 && v < 1<<6) }
+	widths := []int{1, 2, 4, 8}
+	// the frame type in every width that holds it, with every width of the length fields
+	for _, wf := range []int{2, 4, 8} {
+		for _, wa := range widths {
+			for _, wp := range widths {
+				for _, al := range []int{1, 63, 64, 2048} {
+					pl := []int{0, 63, 64, 700}[(wa+wp+al)%4]
+					if fit(al, wa) && fit(pl, wp) {
+						one(al, pl, [3]int{wf, wa, wp}, (wf+wa+wp+al)%3)
+					}
+				}
+			}
+		}
+	}
+	for _, wf := range []int{2, 4, 8} {
+		one(0, 10, [3]int{wf, 1, 1}, 0)
+		one(2049, 10, [3]int{wf, 2, 1}, 0)
+		one(5, 4097, [3]int{wf, 1, 2}, 0)
+		one(5, 4096, [3]int{wf, 8, 8}, 1)
+	}
+	for i := 0; i < kit.Pick(20, 300); i++ {
+		al, pl := 1+r.Intn(2048), r.Intn(4097)
+		w := [3]int{[]int{2, 4, 8}[r.Intn(3)], widths[r.Intn(4)], widths[r.Intn(4)]}
+		if !fit(al, w[1]) {
+			w[1] = 8
+		}
+		if !fit(pl, w[2]) {
+			w[2] = 4
+		}
+		one(al, pl, w, r.Intn(al+pl+20))
+	}
 }
